@@ -560,7 +560,7 @@ func (pr *printer) orderOpts(opts []opt) []string {
 	return out
 }
 
-var guestIdent = regexp.MustCompile(`\b(T\d+[es]?|A\d+|mkT\d+|unT\d+|E\d+|mkE\d+|unE\d+|C\d+|mkC\d+|G|hands|Run|runG|topF\d+|genF\d+|resHolder|desc|concK|coeK)\b`)
+var guestIdent = regexp.MustCompile(`\b(T\d+[es]?|A\d+|mkT\d+|unT\d+|E\d+|mkE\d+|unE\d+|C\d+|mkC\d+|G|hands|Run|runG|runV|topF\d+|genF\d+|resHolder|desc|concK|coeK)\b`)
 
 // guestSource prints program g for inclusion in the file of program host: the
 // declarations of g's own file (everything after its imports) with every
@@ -828,6 +828,9 @@ func (pr *printer) source() string {
 	case p.InMethod:
 		b.WriteString("func Run(x *rt.Exec) error { return (&hands{x}).run(x) }\n\n")
 		b.WriteString("func (hh *hands) run(x *rt.Exec) (rerr error) {\n")
+	case p.InVarLit:
+		b.WriteString("func Run(x *rt.Exec) error { return runV(x) }\n\n")
+		b.WriteString("var runV = func(x *rt.Exec) (rerr error) {\n")
 	default:
 		b.WriteString("func Run(x *rt.Exec) (rerr error) {\n")
 	}
